@@ -203,6 +203,7 @@ fn base_case(kind: KindTag, planner: PlannerTag) -> PlanCase {
         world: World {
             obst: vec![obst],
             only_inside: None,
+            sballs: vec![],
         },
         problems: vec![
             Problem {
